@@ -247,6 +247,11 @@ class Program:
                     short = short[: -len('.__init__')] + '.__init__'
                 rel = os.path.relpath(path, self.repo)
                 self.modules[short] = Module(short, path, rel)
+        # private names that were consistently renamed are renamed back (alpha.py): the checkers name the members they reason about
+        from . import alpha
+        trees = {k: m.tree for k, m in self.modules.items()}
+        self.alpha_map: Dict[str, str] = alpha.renaming(trees)
+        alpha.apply(trees, self.alpha_map)
         for m in self.modules.values():
             self._index_module(m)
         for m in self.modules.values():
